@@ -260,7 +260,7 @@ def body_dag(data) -> Outcome:
         x = required[data["pick"] % len(required)]
         I2 = {k: v for k, v in I.items() if k != x}
         entry = [
-            ("subpipeline", lambda: p.subpipeline(inputs=set(I2), output_names=set(S)).map(dict(I2), **kw)),
+            ("subpipeline", lambda: p.subpipeline(inputs=set(I2), output_names=set(S))),  # the construction itself refuses
             ("map-auto_subpipeline", lambda: p.map(dict(I2), output_names=set(S), auto_subpipeline=True, **kw)),
         ]
         if not inter:
